@@ -43,6 +43,29 @@ type spec struct {
 	Frac  float64 `json:"frac,omitempty"` // bimodal: share of the low mode
 	Zeros bool    `json:"zeros,omitempty"`
 	Lats  []int64 `json:"latencies,omitempty"`
+	// history: after this many Adds an intermediate Close (and report) happens, as `vegeta report -every` does
+	Closes []int `json:"closes_after,omitempty"`
+	// also run the `vegeta report` command on a results file holding the data set
+	CLI bool `json:"cli,omitempty"`
+	// the slowest tenth of the requests failed (code 0 + error text, as timeouts do); otherwise all 200
+	ErrTail bool `json:"errors_on_slowest,omitempty"`
+}
+
+// resultFor builds the Result carrying latency l (the i-th of the data set).
+func (sp spec) resultFor(i int, l int64, cut int64) *vegeta.Result {
+	r := &vegeta.Result{Attack: "a", Seq: uint64(i), Code: 200, Timestamp: time.Unix(1700000000, 0).Add(time.Duration(i) * time.Millisecond), Latency: time.Duration(l)}
+	if sp.ErrTail {
+		switch {
+		case l >= cut:
+			r.Code, r.Error = 0, "Get \"http://x/\": context deadline exceeded"
+		case i%7 == 3:
+			r.Code = 503
+			r.Error = "503 Service Unavailable"
+		case i%5 == 1:
+			r.Code = 302
+		}
+	}
+	return r
 }
 
 const maxLat = int64(1) << 52 // float64(latency) is exact below 2^53
@@ -189,6 +212,18 @@ func genSpec(r *kit.Rng, maxN int) spec {
 	}
 	if sp.Dist != "constant" && r.Chance(0.03) {
 		sp.Zeros = true
+	}
+	if sp.N >= 2 && r.Chance(0.3) {
+		for i := 0; i <= r.Pick(3); i++ {
+			sp.Closes = append(sp.Closes, 1+r.Pick(sp.N-1))
+		}
+		sort.Ints(sp.Closes)
+	}
+	if sp.N <= 20000 && r.Chance(0.08) {
+		sp.CLI = true
+	}
+	if r.Chance(0.3) {
+		sp.ErrTail = true
 	}
 	return sp
 }
@@ -350,6 +385,8 @@ type checker struct {
 	worst  map[string]float64 // max rank distance / n per distribution
 	mc     *mergeChecker      // c11.add / c11.process (compression pass)
 	maxCen int                // largest centroid count seen on vegeta's estimator (maxProcessed is 200)
+	cliSeq int
+	seenRank map[string]bool
 }
 
 func (k *checker) flush(force bool) {
@@ -415,6 +452,10 @@ func (k *checker) check(sp spec, tag string) {
 		repl.Lats = lats
 	}
 
+	errCut := sorted[(n*9)/10]
+	if sp.ErrTail {
+		s.Count("results:slowest tenth failed (code 0 + error), other codes mixed")
+	}
 	var m vegeta.Metrics
 	if p, msg := kit.Recover(func() {
 		// compression pass: watch the estimator vegeta owns; check the Adds that trigger process
@@ -444,7 +485,7 @@ func (k *checker) check(sp spec, tag string) {
 					pre = rd.read()
 				}
 			}
-			m.Add(&vegeta.Result{Code: 200, Latency: time.Duration(l)})
+			m.Add(sp.resultFor(i, l, errCut))
 			if !have {
 				rd = newReader(digestOf(&m))
 				maxU = rd.read().maxU
@@ -452,6 +493,33 @@ func (k *checker) check(sp spec, tag string) {
 			}
 			if watch {
 				k.mc.addOp(s, pre, float64(l), 1, rd.read(), 100, fmt.Sprint(repl))
+			}
+			for ci, c := range sp.Closes {
+				if c == i+1 && c < n {
+					if ci%2 == 1 {
+						// an HDR report asked for WITHOUT a Close since the last Adds (the library allows it)
+						var hb bytes.Buffer
+						herr := vegeta.NewHDRHistogramPlotReporter(&m).Report(&hb)
+						rows, ok := parseHDR(hb.Bytes())
+						ps := prefixSorted(lats, c)
+						s.Count("history:HDR report without Close after more Adds")
+						k.oracleHDR("hdr@prefix-noclose", rows, ok && herr == nil, ps, repl, ps[0] == 0)
+						break
+					}
+					// intermediate report on the prefix (Close, then more Adds, then Close again)
+					m.Close()
+					ps := prefixSorted(lats, c)
+					L := m.Latencies
+					s.Count("history:intermediate Close")
+					k.oracleChain(view{"fields@prefix", []int64{int64(L.Min), int64(L.P50), int64(L.P90), int64(L.P95), int64(L.P99), int64(L.Max)}, true}, ps, repl, ps[0] == 0)
+					if c%2 == 0 {
+						var hb bytes.Buffer
+						herr := vegeta.NewHDRHistogramPlotReporter(&m).Report(&hb)
+						rows, ok := parseHDR(hb.Bytes())
+						k.oracleHDR("hdr@prefix", rows, ok && herr == nil, ps, repl, ps[0] == 0)
+					}
+					break
+				}
 			}
 		}
 		preClose := rd.read()
@@ -582,85 +650,50 @@ func (k *checker) check(sp spec, tag string) {
 		s.Sample(map[string]interface{}{"spec": repl, "p50": int64(L.P50), "p99": int64(L.P99), "min": int64(L.Min), "max": int64(L.Max), "centroids": len(st.means)})
 	}
 
-	// --- the property's own predicate, on the implementation's outputs
-	key := func(extra map[string]interface{}) map[string]interface{} {
-		m := map[string]interface{}{"distribution": sp.Dist, "order": sp.Order, "n": n, "has_zero_latency": hasZero}
-		for a, b := range extra {
-			m[a] = b
-		}
-		return m
-	}
+	// --- the property's own predicate, on everything the implementation reports
 	chain := []int64{int64(L.Min), int64(L.P50), int64(L.P90), int64(L.P95), int64(L.P99), int64(L.Max)}
-	names := []string{"min", "p50", "p90", "p95", "p99", "max"}
-	for i := 0; i+1 < len(chain); i++ {
-		if chain[i] > chain[i+1] {
-			kind := "percentile_order"
-			if i == 0 && hasZero && smin <= chain[1] {
-				// Latencies.Min is wrong once a zero latency was seen (defect of LatencyMetrics.Add, property C10);
-				// against the true minimum the order holds
-				kind = "percentile_order_min_after_zero"
-			}
-			s.Violate(kit.Violation{Kind: kind, What: fmt.Sprintf("%s > %s", names[i], names[i+1]), Input: repl,
-				Expected: "min <= p50 <= p90 <= p95 <= p99 <= max", Observed: fmt.Sprint(chain), Key: key(map[string]interface{}{"pair": names[i] + ">" + names[i+1]})})
-		}
-	}
+	k.oracleChain(view{"fields", chain, true}, sorted, repl, hasZero)
 	if !distinct {
 		s.Count("all_equal")
-		bad := ""
-		for i, v := range chain {
-			if v != smin {
-				bad = names[i]
-			}
-		}
 		for _, x := range finite {
 			if x.v != smin {
-				bad = fmt.Sprintf("Quantile(%v)", x.q)
+				s.Violate(kit.Violation{Kind: "all_equal", What: fmt.Sprintf("all latencies equal but Quantile(%v) differs from the value", x.q), Input: repl,
+					Expected: fmt.Sprint(smin), Observed: fmt.Sprint(x.v), Key: map[string]interface{}{"distribution": sp.Dist, "n": n, "source": "Quantile"}})
+				break
 			}
-		}
-		if bad != "" {
-			s.Violate(kit.Violation{Kind: "all_equal", What: "all latencies equal but " + bad + " differs from the value", Input: repl,
-				Expected: fmt.Sprint(smin), Observed: fmt.Sprint(chain), Key: key(nil)})
 		}
 	}
-	switch {
-	case pr || rerr != nil || !okRows:
-		s.Violate(kit.Violation{Kind: "hdr_report_failed", What: "HDR plot reporter panicked, failed or printed an unparsable table", Input: repl, Key: key(nil)})
-	default:
-		prevV, prevQ := math.Inf(-1), math.Inf(-1)
-		for i, row := range rows {
-			v, e1 := strconv.ParseFloat(row.value, 64)
-			q, e2 := strconv.ParseFloat(row.q, 64)
-			if e1 != nil || e2 != nil {
-				s.Violate(kit.Violation{Kind: "hdr_report_failed", What: "unparsable HDR row", Input: repl, Observed: fmt.Sprint(row), Key: key(nil)})
-				break
-			}
-			if q >= prevQ && v < prevV {
-				s.Violate(kit.Violation{Kind: "hdr_rows_decrease", What: fmt.Sprintf("HDR row %d: value decreases while the percentile grows", i), Input: repl,
-					Expected: fmt.Sprintf(">= %f", prevV), Observed: fmt.Sprint(row), Key: key(map[string]interface{}{"row": i})})
-				break
-			}
-			if q < prevQ {
-				s.Violate(kit.Violation{Kind: "hdr_ladder_unsorted", What: fmt.Sprintf("HDR row %d: percentile column decreases", i), Input: repl, Observed: fmt.Sprint(row), Key: key(nil)})
-				break
-			}
-			prevV, prevQ = v, q
+	k.oracleHDR("hdr", rows, !pr && rerr == nil && okRows, sorted, repl, hasZero)
+	{ // the JSON and text reporters show the same six values
+		var jb, tb bytes.Buffer
+		if p, _ := kit.Recover(func() { rerr = vegeta.NewJSONReporter(&m).Report(&jb) }); p || rerr != nil {
+			s.Violate(kit.Violation{Kind: "report_failed", What: "JSON reporter panicked or failed", Input: repl})
+		} else if ch, ok := parseJSONLatencies(jb.Bytes()); !ok {
+			s.Violate(kit.Violation{Kind: "report_failed", What: "JSON report without the latency fields", Input: repl, Observed: clip(jb.String())})
+		} else {
+			k.oracleChain(view{"json", ch, true}, sorted, repl, hasZero)
+		}
+		if p, _ := kit.Recover(func() { rerr = vegeta.NewTextReporter(&m).Report(&tb) }); p || rerr != nil {
+			s.Violate(kit.Violation{Kind: "report_failed", What: "text reporter panicked or failed", Input: repl})
+		} else if ch, ok := parseTextLatencies(tb.Bytes()); !ok {
+			s.Violate(kit.Violation{Kind: "report_failed", What: "text report without the latency line", Input: repl, Observed: clip(tb.String())})
+		} else {
+			k.oracleChain(view{"text", ch, false}, sorted, repl, hasZero)
 		}
 	}
-	// rank error of the four reported percentiles (a numerical property of the third-party estimator: measured, not proved)
-	for i, q := range []float64{0.50, 0.90, 0.95, 0.99} {
-		v := chain[i+1]
-		ok, off := rankWindow(sorted, v, q)
-		if rel := off / float64(n); rel > k.worst[sp.Dist] {
-			k.worst[sp.Dist] = rel
+	// Close again (a second report of the same data) must not disturb what is reported
+	if k.r.Chance(0.2) {
+		m.Close()
+		L2 := m.Latencies
+		s.Count("history:Close twice")
+		k.oracleChain(view{"fields after a second Close", []int64{int64(L2.Min), int64(L2.P50), int64(L2.P90), int64(L2.P95), int64(L2.P99), int64(L2.Max)}, true}, sorted, repl, hasZero)
+	}
+	if sp.CLI {
+		var fields []int64
+		if len(sp.Closes) == 0 {
+			fields = chain
 		}
-		if !ok {
-			s.Count("rank_error:" + sp.Dist)
-			s.Violate(kit.Violation{Kind: "tdigest_rank_error",
-				What: fmt.Sprintf("P%v=%d is %.0f ranks (%.2f%% of n) away from the ideal rank q*n; allowed 1+n/100=%.2f", q*100, v, off, 100*off/float64(n), 1+0.01*float64(n)),
-				Input: repl, Expected: fmt.Sprintf("two observed latencies around %d with ranks within %.2f of %.2f", v, 1+0.01*float64(n), q*float64(n)),
-				Observed: fmt.Sprintf("closest bracketing observation is %.0f ranks away", off),
-				Key:      key(map[string]interface{}{"q": q, "frac": sp.Frac, "rank_off": off, "rank_off_pct_of_n": 100 * off / float64(n)})})
-		}
+		k.cliReports(lats, sorted, repl, hasZero, fields)
 	}
 	// statistic only (not part of the property): monotonicity over arbitrary q as computed in floats
 	sort.Slice(finite, func(i, j int) bool { return finite[i].q < finite[j].q })
@@ -715,8 +748,9 @@ func runC11(c *run.Ctx, s *kit.Summary) {
 		"uniform (incl. narrow ranges with many ties), log-normal, constant, few-valued (2..5 values), bimodal with gaps of 3..12 orders of magnitude (half of them with the mode boundary within ±3% of a reported percentile), " +
 		"3% with zero latencies; arrival orders random / sorted / reverse-sorted; per set ~130 quantile arguments (Close's four, the HDR ladder, 0, 1, segment borders ± 1 ulp, tails, out of range, NaN); " +
 		"compression pass: on vegeta's own estimator the Adds that trigger process (all for n ≤ 2500, else the first two, 2% and the last), one plain Add and the process() at Close; plus stand-alone digests with compression 1..20 (tiny buffers, incl. the len(processed) > maxProcessed trigger, weights 1..4, NaN samples) with EVERY Add checked; " +
+		"histories: 30% with 1..3 intermediate Close calls / HDR reports without Close, 20% with a second Close; 30% with failed requests (slowest tenth code 0 + error, other codes mixed); 8% also through `vegeta report` (json, text, hdrplot; gob/JSON/CSV input; a third with -every); oracle on fields, JSON, text, HDR rows and the command's outputs; " +
 		"non-trivial = distinct data set with ≥2 samples and ≥2 distinct values"
-	k := &checker{c: c, s: s, r: r, worst: map[string]float64{}, mc: newMergeChecker(),
+	k := &checker{c: c, s: s, r: r, worst: map[string]float64{}, mc: newMergeChecker(), seenRank: map[string]bool{},
 		qst: &kit.Stream{Name: "c11.quantile"}, cst: &kit.Stream{Name: "c11.cum"}, clst: &kit.Stream{Name: "c11.close"}}
 	if c.Replay != "" {
 		sp, ok := loadSpec(c.Replay)
